@@ -186,6 +186,8 @@ def gen_step(rng, fmt, dest_state, overwrite, fault, encoding, names, idx):
     step = {'fmt': fmt}
     # ---- region list with the fault at a seeded position
     n = rng.randint(1, 8) if rng.chance(0.8) else 1
+    if fault == 'none' and rng.chance(0.06):
+        n = 0                 # an empty list is a list like any other
     regions = [_ok_region(rng, fmt) for _ in range(n)]
     label = {'dest_state': dest_state, 'fault': fault}
     kwargs = _good_kwargs(rng, fmt, regions)
